@@ -14,6 +14,14 @@ Definition dec_pt (s : sx) : Qc * Qc * Qc * Qc :=
   | _ => (dec_q (SZ 0), dec_q (SZ 0), dec_q (SZ 0), dec_q (SZ 0))
   end.
 
+(* 0..7 = electron_repulsion.py::_ORIENTATIONS in source order *)
+Definition orient_of_nat (n : nat) : option orient :=
+  match n with
+  | 0 => Some O_abcd | 1 => Some O_bacd | 2 => Some O_abdc | 3 => Some O_badc
+  | 4 => Some O_cdab | 5 => Some O_dcab | 6 => Some O_cdba | 7 => Some O_dcba
+  | _ => None
+  end%nat.
+
 Definition run_core (K : Fops Qc) (c : Z) (args : list sx) : option sx :=
   match c, args with
   (* 1: Overlap.construct_array_contraction(sa, sb) -> [Ma][La][Mb][Lb] *)
@@ -68,6 +76,15 @@ Definition run_core (K : Fops Qc) (c : Z) (args : list sx) : option sx :=
               (eri_block K (dec_shell s1) (dec_shell s2) (dec_shell s3) (dec_shell s4)))
   | 21%Z, [basis; t; nota] =>
       Some (enc4 (eri_integral K (dec_list dec_shell basis) (dec_opt dec_mat t) (dec_bool nota)))
+  (* 22: the block evaluated for orientation o = 0..7 of the quartet and transposed back
+     (eri_block_oriented: what construct_array_contraction returns when its estimate picks o) *)
+  | 22%Z, [o; s1; s2; s3; s4] =>
+      match orient_of_nat (dec_nat o) with
+      | Some oo =>
+          Some (enc_list (enc_list (enc_list (enc_list enc4)))
+                  (eri_block_oriented K oo (dec_shell s1) (dec_shell s2) (dec_shell s3) (dec_shell s4)))
+      | None => None
+      end
   | _, _ => None
   end.
 
